@@ -294,7 +294,10 @@ fn handle(line: &str) -> String {
             runner::exec(&mut song, &toks);
             let st: Vec<String> = song.tracks.iter().map(track_state).collect();
             let log = song.get_logs_str();
-            format!("ok toks={} tracks={} state={} cur={} tb={} pf={} seed={} log={}", hex(toks.iter().map(tok_sexp).collect::<Vec<_>>().join(" ").as_bytes()), tracks_str(&song), st.join(";"), song.cur_track, song.timebase, song.play_from, song.rand_seed, if log.is_empty() { "~".to_string() } else { hex(log.as_bytes()) })
+            let sg = format!("ks:{},kf:{},uk:{},va:{},qa:{},ms:{},tsf:{},tsd:{},tempo:{}", song.key_shift, song.key_flag.iter().map(|x| x.to_string()).collect::<Vec<_>>().join("/"),
+                if song.use_key_shift { 1 } else { 0 }, song.v_add, song.q_add, song.flags.measure_shift, song.timesig_frac, song.timesig_deno, song.tempo);
+            let ties: Vec<String> = song.tracks.iter().map(|t| format!("{}:{}:{}", t.tie_mode as isize, t.tie_value, t.bend_range)).collect();
+            format!("ok toks={} tracks={} state={} cur={} tb={} pf={} seed={} song={} ties={} log={}", hex(toks.iter().map(tok_sexp).collect::<Vec<_>>().join(" ").as_bytes()), tracks_str(&song), st.join(";"), song.cur_track, song.timebase, song.play_from, song.rand_seed, sg, ties.join(";"), if log.is_empty() { "~".to_string() } else { hex(log.as_bytes()) })
         }
         "ping" => "ok pong".to_string(),
         _ => "bad-op".to_string(),
